@@ -17,12 +17,15 @@ of `Martian.FormatExp`.
   amd64 (`|x| ≥ 2^63` ↦ `MinInt64`): finding F25.
 * `readGBTok`: `roundUpTo(float_32, 1024) · 1024` computed EXACTLY on the
   decimal value of the token text (`mant · 10^exp10 · 1024` rounded away from
-  zero).  No float32 rounding is modelled, except that a NUM_FLOAT at or below
-  2^-150 reads as 0 (float32 underflow) and one above the float32 range is
-  rejected (`tryParseFloat32`).  Trusted: on the texts `formatGB` prints
-  strconv and the float32/float64 arithmetic of `roundUpTo` agree with exact
-  arithmetic (the harness checks it on the real code for every value it
-  samples, including all 1024 fractions).
+  zero).  No float32 rounding is modelled there, except that a NUM_FLOAT at or
+  below 2^-150 reads as 0 (float32 underflow) and one above the float32 range
+  is rejected (`tryParseFloat32`).  `readGB32Tok` is the same WITH the rounding
+  of the literal to the nearest float32 that the real parser performs first;
+  the harness ties it to the real parser on every literal and every printed
+  value it samples.  The two agree on the texts `formatGB` prints for
+  |gb| < 256 (exhaustive replay of the real arithmetic over 0..2^24 MB: the
+  first value that fails is 262188 MB); from 256 GB on they do not: finding
+  F29 (`Props.C09.formatGB_float32_witness`).
 * `threads` keeps the token text (the model never computes with the value;
   the harness canonicalises through `roundUpTo(·, 100)` and `%g`).
 * `fmtRes`: `Resources.format` without comments, from `) using (` to the last
@@ -139,6 +142,52 @@ def readGB (t : Bytes) : Option Int :=
   match numTok false t with
   | .int raw => if raw = t then readGBTok (.int raw) else none
   | .float raw => if raw = t then readGBTok (.float raw) else none
+  | _ => none
+
+/-! ### the same with the float32 rounding of the literal (`tryParseFloat32`, `float32(int64)`)
+
+Not used by the readers below (the round-trip theorems are about the exact
+reading); it is what the real parser computes for EVERY literal, tied by the
+harness, and it exhibits finding F29: from 256 GB on `formatGB`'s text does not
+survive the rounding to the nearest float32 that precedes `roundUpTo`. -/
+
+/-- the float32 nearest to the positive rational `n/d` (ties to even, gradual
+underflow; no overflow check) as `m · 2^e` with `m ≤ 2^24`, `e ≥ -149` -/
+def f32Round (n d : Nat) : Nat × Int :=
+  if n = 0 then (0, 0) else
+  let e0 : Int := (n.log2 : Int) - (d.log2 : Int) - 23
+  let q (e : Int) : Nat := if e ≥ 0 then n / (d * 2 ^ e.toNat) else n * 2 ^ (-e).toNat / d
+  let e1 : Int := if q e0 < 2 ^ 23 then e0 - 1 else if q e0 ≥ 2 ^ 24 then e0 + 1 else e0
+  let e : Int := if e1 < -149 then -149 else e1
+  let N : Nat := if e ≥ 0 then n else n * 2 ^ (-e).toNat
+  let D : Nat := if e ≥ 0 then d * 2 ^ e.toNat else d
+  let m := N / D
+  let rem := N % D
+  (if 2 * rem > D || (2 * rem == D && m % 2 == 1) then m + 1 else m, e)
+
+/-- `roundUpTo(m · 2^e, 1024) · 1024` (exact in float64; the result fits float32) -/
+def f32MB (me : Nat × Int) : Nat :=
+  if me.2 + 10 ≥ 0 then me.1 * 2 ^ (me.2 + 10).toNat else ceilDiv me.1 (2 ^ (-(me.2 + 10)).toNat)
+
+/-- `roundUpTo(float_32, 1024)` in MB, with the float32 rounding of the literal -/
+def readGB32Tok : Tok → Option Int
+  | .int raw => (parseInt raw).map fun i =>
+      if i < 0 then -(f32MB (f32Round i.natAbs 1) : Int) else (f32MB (f32Round i.natAbs 1) : Int)
+  | .float raw =>
+    match parseFloat true raw with
+    | none => none
+    | some l =>
+      let k := (-l.exp10).toNat
+      if decide (l.exp10 < 0) && decide (k > raw.length + 50) then some 0 else
+      let v : Nat := f32MB (if l.exp10 ≥ 0 then f32Round (l.mant * 10 ^ l.exp10.toNat) 1
+        else f32Round l.mant (10 ^ k))
+      some (if l.neg then -(v : Int) else (v : Int))
+  | _ => none
+
+def readGB32 (t : Bytes) : Option Int :=
+  match numTok false t with
+  | .int raw => if raw = t then readGB32Tok (.int raw) else none
+  | .float raw => if raw = t then readGB32Tok (.float raw) else none
   | _ => none
 
 /-- `float_32` for `threads`: the token text (the model does not compute with it) -/
